@@ -791,7 +791,8 @@ def parse_cobs(line):
          "panics": int((sx.field(f, "panics") or ["0"])[0]), "timelimit": (sx.field(f, "timelimit") or ["0"])[0],
          "live": sx.field(f, "live"), "names": sx.field(f, "names"), "ev": sx.field(f, "ev"), "choices": sx.field(f, "choices"),
          "msg": " ".join(map(str, sx.field(f, "msg"))), "edges": sx.field(f, "edges") or [],
-         "detail": " ".join(map(str, sx.field(f, "detail") or []))}
+         "detail": " ".join(map(str, sx.field(f, "detail") or [])),
+         "left": [int(v) for v in (sx.field(f, "left") or [0, 0])]}
     return d
 
 
